@@ -39,7 +39,7 @@ LEAN = dict(
         "(Float32 product, then double addition, for the float64 variables of the joint model) and IEEE double for the nll terms",
         "the uniform / normal laws of torch.rand / torch.randn are not modelled: 'accepted with probability min(1,alpha)' "
         "and ergodicity are not claimed, only the decision rule, its arguments and the draw accounting",
-        "mixture models (responsibility-weighted regularity in the individual sampler) are outside the checked region",
+        "mixture models: the individual sampler's responsibility-weighted regularity of the sampled variable (weights of the same state) is checked as coded; it is not the mixture-prior density and no theorem covers it",
     ],
     assumptions=[
         "alpha is evaluated by the implementation in the dtype of the nll terms (float32; float64 attachment for the joint model): "
@@ -63,6 +63,9 @@ MODELS = {
     "joint_diagonal": "joint",
     "univariate_joint": "joint-uni",
     "shared_speed_logistic_diag_noise": "tiny",
+    # mixture: the individual sampler weights the per-cluster regularity of the sampled variable by the cluster
+    # responsibilities of the SAME state (current / proposed); that as-coded target is what is checked (see Energies.at)
+    "hardcoded/mixture": "tiny",
 }
 KINDS = ["Gibbs", "FastGibbs", "Metropolis-Hastings"]
 TINVS = [1.0, 0.5, 0.1]
@@ -105,7 +108,8 @@ def err_class(env, e):
 def load_model_and_data(env, name, subset=None):
     pd = env.pd
     root = core.REPO / D_ROOT
-    model = env.BaseModel.load(str(root / "model_parameters" / "from_fit" / f"{name}.json"))
+    sub = name if "/" in name else f"from_fit/{name}"
+    model = env.BaseModel.load(str(root / "model_parameters" / f"{sub}.json"))
     kind = MODELS[name]
     if kind.startswith("joint"):
         df = pd.read_csv(root / "data_mock" / "data_tiny_joint.csv", dtype={"ID": str}, sep=";")
@@ -157,6 +161,17 @@ class Energies:
         out["A_ind"] = tens(env, b["nll_attach_ind"]).detach().clone()
         out["R"] = {v: tens(env, b[f"nll_regul_{v}"]).detach().clone() for v in self.pop_vars + self.ind_vars}
         out["R_ind"] = {v: tens(env, b[f"nll_regul_{v}_ind"]).detach().clone() for v in self.ind_vars}
+        tot = tens(env, b["nll_regul_ind_sum_ind"])
+        if tot.ndim > 1:
+            # models with clusters: per-cluster regularities, aggregated with the responsibilities of this very state
+            probs = env.torch.nn.Softmax(dim=1)(env.torch.clamp(-tot.detach(), -100.))
+            for v in self.ind_vars:
+                r = out["R_ind"][v]
+                if v == self.var and r.ndim == 2:
+                    out["R_ind"][v] = (probs * r).sum(dim=1)
+                else:
+                    # the individual sampler of `var` only accounts for the sampled variable's own term
+                    out["R_ind"][v] = env.torch.zeros(r.shape[0], dtype=r.dtype)
         return out
 
 
